@@ -526,15 +526,34 @@ Proof.
     intuition (try congruence; try discriminate; auto).
 Qed.
 
+Lemma inv2_authd s c : Inv2 s -> Inv2 (set_conn s c (k_authd (conns s c))).
+Proof.
+  intros [H N]. split; [|exact N]. intros x. simp_state. conn_at x c; [apply conn_ok_authd|]; apply H.
+Qed.
+Lemma inv2_close_at s c k0 : same_core (conns s c) k0 -> Inv2 s -> Inv2 (set_conn s c (close_conn k0)).
+Proof.
+  intros Hc [H N]. split; [|exact N]. intros x. simp_state. conn_at x c; [|apply H].
+  apply conn_ok_close. eapply conn_ok_core; [exact Hc|apply H].
+Qed.
+
 Lemma inv2_step s e s' : Inv2 s -> step e s = Some s' -> Inv2 s'.
 Proof.
   intros I H.
   step_cases H.
   all: try (apply inv2_server_close; assumption).
   all: try (apply inv2_connect; assumption).
-  all: try (apply inv2_accept; [assumption| |assumption]).
+  all: try (apply inv2_accept; [assumption| |assumption];
+            match goal with Hb : _ && is_none (busy s) = true |- _ => apply andb_prop in Hb; tauto end).
   all: try (apply inv2_authing_ends; assumption).
+  all: try (apply inv2_authd; assumption).
+  all: try (apply inv2_finish_own;
+            [simp_state; rewrite ?upd_same, ?serve_on_same, ?served_conn_stg, ?close_conn_stg; cbn; assumption
+            |first [assumption | apply inv2_close_at; [repeat split|assumption] | apply inv2_serve_on; assumption]]).
+  all: try (apply inv2_drop).
+  all: try (apply inv2_serve_on; assumption).
   all: try (apply inv2_local; [repeat split|assumption]).
-  Show.
-Abort.
+  all: try (eapply inv2_tables; [..|first [eassumption | apply inv2_serve_on; eassumption | apply inv2_local; [|eassumption]; repeat split]];
+            simp_state; reflexivity).
+Qed.
+
 End P.
